@@ -9,7 +9,7 @@ open Pelite
 
 /-! ### the printer never panics / reads outside -/
 
-theorem safe_drawEntries {r : Resources} (hb : Aligned r) (rec : Dir → Nat → Nat → Out (List Nat × Nat))
+theorem safe_drawEntries {r : Resources} (hb : Aligned r) (rec : Dir → Nat → Nat → Out (List (List Nat) × Nat))
     (hrec : ∀ d m b, DirOK r d → Safe (rec d m b)) (depth margin : Nat) (isRoot : Bool) :
     ∀ (es : List DirEntry) (b : Nat), Safe (drawEntries rec r depth margin isRoot es b)
   | [], b => trivial
@@ -119,7 +119,7 @@ theorem safe_drawDir {r : Resources} (hb : Aligned r) : ∀ (k : Nat) (isRoot : 
     · rw [if_neg hb0, entries_eq hb hd]
       exact safe_drawEntries hb _ (fun d' m' b' hd' => safe_drawDir hb k false d' m' b' hd') _ _ _ _ _
 
-theorem safe_textOf {o : Out (List Nat × Nat)} (h : Safe o) : Safe (textOf o) := by
+theorem safe_textOf {o : Out (List (List Nat) × Nat)} (h : Safe o) : Safe (textOf o) := by
   cases o <;> first | trivial | exact h
 
 theorem safe_dirDisplay {r : Resources} (hb : Aligned r) {d : Dir} (hd : DirOK r d) : Safe (d.display r) := by
@@ -149,5 +149,317 @@ theorem safe_display {r : Resources} (hb : Aligned r) : Safe (display r) := by
   | panic s => rw [hr] at hs; exact hs.elim
   | ub s => rw [hr] at hs; exact hs.elim
   | diverge => rw [hr] at hs; exact hs.elim
+
+end Pelite.Resources
+
+namespace Pelite.Resources
+open Pelite
+
+/-! ### group resources: safety -/
+
+theorem bytes_bound {r : Resources} {de : DataEntry} {ref : Ref} (h : de.bytes r = .ok ref) :
+    ref.off + ref.len ≤ r.sec.size ∧ ref.align = 1 := by
+  unfold DataEntry.bytes at h
+  dsimp only at h
+  by_cases c1 : de.offsetToData < r.dirVA
+  · rw [if_pos c1] at h; cases h
+  · rw [if_neg c1] at h
+    by_cases c2 : de.offsetToData - r.dirVA + de.size ≥ 4294967296
+    · rw [if_pos c2] at h; cases h
+    · rw [if_neg c2] at h
+      by_cases c3 : de.offsetToData - r.dirVA + de.size > r.sec.size
+      · rw [if_pos c3] at h; cases h
+      · rw [if_neg c3] at h
+        cases h
+        exact ⟨by show de.offsetToData - r.dirVA + de.size ≤ r.sec.size; omega, rfl⟩
+
+/-- what `GroupResource::new` establishes -/
+def GroupOK (r : Resources) (g : Group) : Prop :=
+  (r.base + g.off) % 2 = 0 ∧ g.off + 6 + 14 * g.count ≤ r.sec.size ∧ (g.ty = 1 ∨ g.ty = 2) ∧
+  g.ty = le16 r.sec (g.off + 2) ∧ g.count = le16 r.sec (g.off + 4)
+
+theorem groupNew_eq {r : Resources} {bytes : Ref} (hbnd : bytes.off + bytes.len ≤ r.sec.size) :
+    groupNew r bytes =
+      if (r.base + bytes.off) % 2 ≠ 0 then .err .misaligned
+      else if bytes.len < 6 then .err .bounds
+      else if le16 r.sec bytes.off ≠ 0 ∨ ¬ (le16 r.sec (bytes.off + 2) = 1 ∨ le16 r.sec (bytes.off + 2) = 2) then .err .badMagic
+      else if bytes.len ≠ 6 + le16 r.sec (bytes.off + 4) * 14 then .err .bounds
+      else .ok ⟨bytes.off, le16 r.sec (bytes.off + 2), le16 r.sec (bytes.off + 4)⟩ := by
+  unfold groupNew
+  by_cases c1 : (r.base + bytes.off) % 2 ≠ 0
+  · rw [if_pos c1, if_pos c1]
+  · rw [if_neg c1, if_neg c1]
+    by_cases c2 : bytes.len < 6
+    · rw [if_pos c2, if_pos c2]
+    · rw [if_neg c2, if_neg c2]
+      have hraw : rawRef "group.rs:new &*(bytes.as_ptr() as *const GRPICONDIR)" r.img bytes.off 6 2 = .ok ⟨bytes.off, 6, 2⟩ := by
+        unfold rawRef Resources.img
+        rw [if_pos ⟨by show bytes.off + 6 ≤ r.sec.size; omega, by show (r.base + bytes.off) % 2 = 0; omega⟩]
+      rw [hraw]
+
+theorem safe_groupNew {r : Resources} {bytes : Ref} (hbnd : bytes.off + bytes.len ≤ r.sec.size) : Safe (groupNew r bytes) := by
+  rw [groupNew_eq hbnd]
+  safe_ifs
+
+theorem groupNew_ok {r : Resources} {bytes : Ref} (hbnd : bytes.off + bytes.len ≤ r.sec.size) {g : Group}
+    (h : groupNew r bytes = .ok g) : GroupOK r g ∧ g.off = bytes.off ∧ bytes.len = 6 + 14 * g.count := by
+  rw [groupNew_eq hbnd] at h
+  by_cases c1 : (r.base + bytes.off) % 2 ≠ 0
+  · rw [if_pos c1] at h; cases h
+  · rw [if_neg c1] at h
+    by_cases c2 : bytes.len < 6
+    · rw [if_pos c2] at h; cases h
+    · rw [if_neg c2] at h
+      by_cases c3 : le16 r.sec bytes.off ≠ 0 ∨ ¬ (le16 r.sec (bytes.off + 2) = 1 ∨ le16 r.sec (bytes.off + 2) = 2)
+      · rw [if_pos c3] at h; cases h
+      · rw [if_neg c3] at h
+        by_cases c4 : bytes.len ≠ 6 + le16 r.sec (bytes.off + 4) * 14
+        · rw [if_pos c4] at h; cases h
+        · rw [if_neg c4] at h
+          cases h
+          refine ⟨⟨by show (r.base + bytes.off) % 2 = 0; omega, ?_, ?_, rfl, rfl⟩, rfl, ?_⟩
+          · show bytes.off + 6 + 14 * le16 r.sec (bytes.off + 4) ≤ r.sec.size; omega
+          · show le16 r.sec (bytes.off + 2) = 1 ∨ le16 r.sec (bytes.off + 2) = 2
+            by_cases c5 : le16 r.sec (bytes.off + 2) = 1 ∨ le16 r.sec (bytes.off + 2) = 2
+            · exact c5
+            · exact absurd (Or.inr c5) c3
+          · show bytes.len = 6 + 14 * le16 r.sec (bytes.off + 4); omega
+
+theorem groupEntries_eq {r : Resources} {g : Group} (hg : GroupOK r g) :
+    g.entries r = .ok (groupEntriesFrom r (g.off + 6) g.count) := by
+  unfold Group.entries rawRef Resources.img
+  obtain ⟨h1, h2, _⟩ := hg
+  rw [if_pos ⟨by show g.off + 6 + 14 * g.count ≤ r.sec.size; omega, by show (r.base + (g.off + 6)) % 2 = 0; omega⟩]
+
+theorem typeId_ok {r : Resources} {g : Group} (hg : GroupOK r g) : ∃ t, g.typeId = .ok t ∧ (t = RT_ICON ∨ t = RT_CURSOR) := by
+  unfold Group.typeId
+  rcases hg.2.2.1 with h | h
+  · rw [if_pos h]; exact ⟨_, rfl, Or.inl rfl⟩
+  · rw [if_neg (by omega), if_pos h]; exact ⟨_, rfl, Or.inr rfl⟩
+
+theorem isVal_image {r : Resources} (hb : Aligned r) {g : Group} (hg : GroupOK r g) (id : Nat) : IsVal (g.image r id) := by
+  unfold Group.image
+  obtain ⟨t, ht, _⟩ := typeId_ok hg
+  rw [ht]
+  dsimp only
+  refine isVal_liftE (safe_root hb) (fun d hd => ?_)
+  obtain ⟨h1, h2⟩ := isVal_getDir hb (root_ok hb hd) (.id t)
+  refine isVal_bindF h1 (fun td htd => ?_)
+  obtain ⟨h3, h4⟩ := isVal_getDir hb (h2 td htd) (.id id)
+  refine isVal_bindF h3 (fun nd hnd => ?_)
+  exact isVal_bindF (isVal_firstData hb (h4 nd hnd)) (fun de _ => isVal_bytesF r de)
+
+theorem safe_writeImages {r : Resources} (hb : Aligned r) {g : Group} (hg : GroupOK r g) :
+    ∀ es : List GroupEntry, ∃ out, writeImages r g es = .ok out
+  | [] => ⟨[], rfl⟩
+  | e :: rest => by
+    unfold writeImages
+    have hv := isVal_image hb hg e.nId
+    obtain ⟨more, hm⟩ := safe_writeImages hb hg rest
+    cases hi : g.image r e.nId with
+    | ok res => dsimp only; rw [hm]; exact ⟨_, rfl⟩
+    | err er => rw [hi] at hv; exact hv.elim
+    | panic s => rw [hi] at hv; exact hv.elim
+    | ub s => rw [hi] at hv; exact hv.elim
+    | diverge => rw [hi] at hv; exact hv.elim
+
+/-- `write` into a vector always succeeds -/
+theorem write_ok {r : Resources} (hb : Aligned r) {g : Group} (hg : GroupOK r g) : ∃ out, g.write r = .ok out := by
+  unfold Group.write
+  rw [groupEntries_eq hg]
+  dsimp only
+  obtain ⟨images, hi⟩ := safe_writeImages hb hg (groupEntriesFrom r (g.off + 6) g.count)
+  rw [hi]
+  exact ⟨_, rfl⟩
+
+/-- every group an item of `icons()` / `cursors()` holds satisfies the group invariant -/
+def ItemOK (r : Resources) : FRes (Name × Group) → Prop
+  | .ok p => GroupOK r p.2
+  | .error _ => True
+
+theorem groupItem_ok {r : Resources} (hb : Aligned r) (de : DirEntry) :
+    ∃ item, groupItem r de = .ok item ∧ ItemOK r item := by
+  unfold groupItem
+  have h1 := safe_getName hb de
+  cases hn : de.getName r with
+  | ok name =>
+    simp only [liftE]
+    have h2 := safe_entry hb de
+    cases he : de.entry r with
+    | ok en =>
+      dsimp only
+      cases en with
+      | data d => exact ⟨_, rfl, trivial⟩
+      | dir d =>
+        simp only [asDir, okF, bindF]
+        have hd := (entry_dir_ok hb he).1
+        have h3 := isVal_firstData hb hd
+        cases hf : d.firstData r with
+        | ok v =>
+          cases v with
+          | error e => exact ⟨_, rfl, trivial⟩
+          | ok data =>
+            dsimp only
+            have h4 := safe_bytes r data
+            cases hby : data.bytes r with
+            | ok bytes =>
+              dsimp only
+              have hbnd := (bytes_bound hby).1
+              have h5 := safe_groupNew (r := r) hbnd
+              cases hg : groupNew r bytes with
+              | ok g => exact ⟨_, rfl, (groupNew_ok hbnd hg).1⟩
+              | err e => exact ⟨_, rfl, trivial⟩
+              | panic s => rw [hg] at h5; exact h5.elim
+              | ub s => rw [hg] at h5; exact h5.elim
+              | diverge => rw [hg] at h5; exact h5.elim
+            | err e => exact ⟨_, rfl, trivial⟩
+            | panic s => rw [hby] at h4; exact h4.elim
+            | ub s => rw [hby] at h4; exact h4.elim
+            | diverge => rw [hby] at h4; exact h4.elim
+        | err e => rw [hf] at h3; exact h3.elim
+        | panic s => rw [hf] at h3; exact h3.elim
+        | ub s => rw [hf] at h3; exact h3.elim
+        | diverge => rw [hf] at h3; exact h3.elim
+    | err e => exact ⟨_, rfl, trivial⟩
+    | panic s => rw [he] at h2; exact h2.elim
+    | ub s => rw [he] at h2; exact h2.elim
+    | diverge => rw [he] at h2; exact h2.elim
+  | err e => exact ⟨_, rfl, trivial⟩
+  | panic s => rw [hn] at h1; exact h1.elim
+  | ub s => rw [hn] at h1; exact h1.elim
+  | diverge => rw [hn] at h1; exact h1.elim
+
+theorem groupItems_ok {r : Resources} (hb : Aligned r) : ∀ es : List DirEntry,
+    ∃ items, groupItems r es = .ok items ∧ items.length = es.length ∧ ∀ it ∈ items, ItemOK r it
+  | [] => ⟨[], rfl, rfl, fun it h => by cases h⟩
+  | de :: rest => by
+    unfold groupItems
+    obtain ⟨item, h1, h2⟩ := groupItem_ok hb de
+    obtain ⟨more, h3, h4, h5⟩ := groupItems_ok hb rest
+    rw [h1]; dsimp only; rw [h3]
+    refine ⟨item :: more, rfl, by simp [h4], ?_⟩
+    intro it hit
+    rcases List.mem_cons.1 hit with rfl | hit
+    · exact h2
+    · exact h5 it hit
+
+/-- `icons()` / `cursors()` always produce a list of results, one per entry of the group directory -/
+theorem groups_ok {r : Resources} (hb : Aligned r) (ty : Nat) :
+    ∃ items, groups r ty = .ok items ∧ ∀ it ∈ items, ItemOK r it := by
+  unfold groups
+  have hs := safe_root hb
+  cases hr : root r with
+  | ok d =>
+    simp only [liftE]
+    obtain ⟨h1, h2⟩ := isVal_getDir hb (root_ok hb hr) (.id ty)
+    cases hg : d.getDir r (.id ty) with
+    | ok v =>
+      cases v with
+      | error e => exact ⟨[], rfl, fun it h => by cases h⟩
+      | ok gd =>
+        dsimp only
+        rw [entries_eq hb (h2 gd hg)]
+        dsimp only
+        obtain ⟨items, h3, _, h5⟩ := groupItems_ok hb (entriesFrom r (gd.off + 16) (gd.named + gd.ids))
+        exact ⟨items, h3, h5⟩
+    | err e => rw [hg] at h1; exact h1.elim
+    | panic s => rw [hg] at h1; exact h1.elim
+    | ub s => rw [hg] at h1; exact h1.elim
+    | diverge => rw [hg] at h1; exact h1.elim
+  | err e => exact ⟨[], rfl, fun it h => by cases h⟩
+  | panic s => rw [hr] at hs; exact hs.elim
+  | ub s => rw [hr] at hs; exact hs.elim
+  | diverge => rw [hr] at hs; exact hs.elim
+
+end Pelite.Resources
+
+namespace Pelite.Resources
+open Pelite
+
+/-! ### what `write` produces -/
+
+theorem writeEntries_length (r : Resources) : ∀ (es : List GroupEntry) (off : Nat), (writeEntries r es off).length = 16 * es.length
+  | [], _ => rfl
+  | e :: rest, off => by
+    simp only [writeEntries, List.length_append, bytesAt_length, le32Bytes, List.length_cons, List.length_nil,
+      writeEntries_length r rest]
+    omega
+
+/-- the record written for an entry: its first 12 bytes, then
+`dwImageOffset = (start + Σ dwBytesInRes of the entries before it) mod 2^32` -/
+theorem writeEntries_split (r : Resources) : ∀ (pre : List GroupEntry) (e : GroupEntry) (post : List GroupEntry) (off : Nat),
+    off < 4294967296 →
+    writeEntries r (pre ++ e :: post) off =
+      writeEntries r pre off ++
+      (bytesAt r.sec e.off 12 ++ le32Bytes ((off + (pre.map (·.bytesInRes)).sum) % 4294967296)) ++
+      writeEntries r post ((off + (pre.map (·.bytesInRes)).sum + e.bytesInRes) % 4294967296)
+  | [], e, post, off, h => by
+    simp only [List.nil_append, writeEntries, List.map_nil, List.sum_nil, Nat.add_zero, wadd32]
+    rw [Nat.mod_eq_of_lt h]
+  | x :: pre, e, post, off, h => by
+    have ih := writeEntries_split r pre e post (wadd32 off x.bytesInRes) (by unfold wadd32; omega)
+    simp only [List.cons_append, writeEntries, List.map_cons, List.sum_cons]
+    rw [ih]
+    simp only [wadd32, List.append_assoc]
+    have e1 : ((off + x.bytesInRes) % 4294967296 + (pre.map (·.bytesInRes)).sum) % 4294967296 =
+        (off + (x.bytesInRes + (pre.map (·.bytesInRes)).sum)) % 4294967296 := by omega
+    have e2 : ((off + x.bytesInRes) % 4294967296 + (pre.map (·.bytesInRes)).sum + e.bytesInRes) % 4294967296 =
+        (off + (x.bytesInRes + (pre.map (·.bytesInRes)).sum) + e.bytesInRes) % 4294967296 := by omega
+    rw [e1, e2]
+
+/-- the bytes `write` appends for one entry: its image when the lookup succeeds, nothing otherwise -/
+def imageOf (r : Resources) (g : Group) (e : GroupEntry) : List UInt8 :=
+  match g.image r e.nId with
+  | .ok (.ok b) => bytesAt r.sec b.off b.len
+  | _ => []
+
+theorem writeImages_eq {r : Resources} {g : Group} : ∀ (es : List GroupEntry) (out : List UInt8),
+    writeImages r g es = .ok out → out = (es.map (imageOf r g)).flatten
+  | [], out, h => by simp only [writeImages, Out.ok.injEq] at h; subst h; rfl
+  | e :: rest, out, h => by
+    unfold writeImages at h
+    cases hi : g.image r e.nId with
+    | ok res =>
+      rw [hi] at h
+      dsimp only at h
+      cases hm : writeImages r g rest with
+      | ok more =>
+        rw [hm] at h
+        simp only [Out.ok.injEq] at h
+        subst h
+        have := writeImages_eq rest more hm
+        simp only [List.map_cons, List.flatten_cons]
+        rw [← this]
+        congr 1
+        unfold imageOf
+        rw [hi]
+        cases res <;> rfl
+      | err er => rw [hm] at h; cases h
+      | panic s => rw [hm] at h; cases h
+      | ub s => rw [hm] at h; cases h
+      | diverge => rw [hm] at h; cases h
+    | err er => rw [hi] at h; cases h
+    | panic s => rw [hi] at h; cases h
+    | ub s => rw [hi] at h; cases h
+    | diverge => rw [hi] at h; cases h
+
+/-- `write`: the 6 header bytes, one 16-byte record per entry, then the images in entry order -/
+theorem write_eq {r : Resources} (hb : Aligned r) {g : Group} (hg : GroupOK r g) :
+    g.write r = .ok (bytesAt r.sec g.off 6 ++
+      writeEntries r (groupEntriesFrom r (g.off + 6) g.count) (6 + (groupEntriesFrom r (g.off + 6) g.count).length * 16) ++
+      ((groupEntriesFrom r (g.off + 6) g.count).map (imageOf r g)).flatten) := by
+  obtain ⟨images, hi⟩ := safe_writeImages hb hg (groupEntriesFrom r (g.off + 6) g.count)
+  have := writeImages_eq _ _ hi
+  unfold Group.write
+  rw [groupEntries_eq hg]
+  dsimp only
+  rw [hi]
+  dsimp only
+  rw [this]
+
+theorem groupEntriesFrom_length (r : Resources) (start n : Nat) : (groupEntriesFrom r start n).length = n := by
+  induction n generalizing start with
+  | zero => rfl
+  | succ n ih => simp [groupEntriesFrom, ih]
 
 end Pelite.Resources
